@@ -32,6 +32,10 @@ CLAIMED = {
          PBT + ": generated chunk plans executed by scripted peers on the three REAL transports over loopback (tokio-rustls server, russh server with exact channel-data packets, child process for the local CLI); oracles = delivered payloads vs sent payloads, and promptness judged against the instant the peer itself sent further traffic",
          "Sessions over real TLS, SSH and local-CLI transports; the peer writes the hello and the concatenated replies of 1..4 pipelined requests per round in units cut at generated positions, with forced cuts at every offset inside ]]>]]>, several messages per unit and delimiter look-alikes in payloads. Every caller must get exactly its payload, before the peer had to send further traffic (the peer nudges only after 1.5 s without client progress and records it). All five in-delimiter offsets on every transport are fixed cases. Failures must reproduce on an immediate second run.",
          "TLS and pipe read boundaries can only be encouraged, not forced (SSH packets are exact). Real time is involved; a timeout alone is never a verdict, the peer's own nudge mark is."),
+ "C07": ("fault_enumeration", "DESIGN.md section 3 C07",
+         "fault enumeration inside property-based testing (proptest): transport x close point x manner x outstanding requests enumerated completely on the three real transports over loopback, cut positions generated; oracle = every operation completes within the bound, CPU accounting separates waiting from spinning",
+         "Scripted peers (tokio-rustls server, russh server, child process) close the connection at every point of a session's life (after accept, during the handshake, before / inside the hello, idle, after the requests, inside a reply, after the first of several replies), cleanly or abruptly, with 0/1/3 requests outstanding. Establishment, every pending reply and one subsequent request must complete with an error (or the value actually sent) within 10 s and the process must not burn CPU. The client runs on a watched thread so that a loop that never yields is itself observed. The three confirmed defects (TLS / local EOF busy loop, SSH pump spin) were repaired; their cases are regression inputs.",
+         "Wall clock: the bound is the property's own observable (10^4 margin on loopback); a miss must reproduce on an immediate re-run. CPU time is process-wide, cases run sequentially."),
  "C08": ("exploration", "DESIGN.md section 3 C08",
          PBT + ": grammar-generated rpc-reply documents for every operation over an in-memory session; bounded-exhaustive enumeration of all child sequences of length <= 3; oracle = document content vs result",
          "Generated-input search over the reply grammar of every operation (EmptyReply, DataReply, BareReply, load-configuration results): any number/order/severity of rpc-error combined with any positive indication at every grammar position. All child sequences up to length 3 are enumerated completely, longer ones sampled. Establishes the property for the enumerated sub-space and gives high confidence beyond it; not a proof.",
@@ -80,6 +84,10 @@ CLAIMED = {
          PBT + ": generated histories (period, run outcomes and durations, SIGHUP / SIGTERM / SIGINT instants) against the agent's real daemon loop on a paused-time (virtual clock) tokio runtime with real Unix signals; oracle = reference timing model over the time line of run starts",
          "The real Loop::start runs under tokio's virtual time; each run is a scripted outcome installed through a hook, signals are raised with libc::raise inside waiting intervals. The observed time line of run starts and the loop's exit are compared with a reference model: first run immediately, period after a success, 60 s after the first failure, non-decreasing and strictly growing retry delays up to max(60 s, period), reset by success, SIGHUP runs at once, SIGTERM/SIGINT exit cleanly. The confirmed defect (period < 60 s shrinks the delay) was repaired.",
          "Run bodies are scripted (the real job needs block_in_place, impossible on a paused current-thread runtime); signals only while waiting; virtual time tolerance 2 ms."),
+ "C20": ("exploration", "DESIGN.md section 3 C20",
+         PBT + ": generated secrets, outcomes and filter directives on real loopback connection attempts under a capturing tracing subscriber (log bridge installed), plus the unmodified agent binary's stderr at generated verbosity; oracle = substring search for the secret and its trivial encodings with a positive control",
+         "SSH passwords (generated, >= 8 chars with quotes / whitespace / non-ASCII / format look-alikes) and five TLS client keys are handed to real Session::ssh / Session::tls attempts (success, wrong password, untrusted certificate, name mismatch, refused, peer closes in the hello) at seven filter directives up to TRACE, and to the agent binary at -v..-vvvv / RUST_LOG. The captured text must not contain the secret in clear, escape_debug/escape_default, hex, base64 (any alignment), decimal or hex byte lists; for keys the whole DER, the PEM lines and every secret component (RSA d,p,q,dP,dQ,qInv; EC scalar; Ed25519 seed) whole and in 16-byte windows. The user name / key path must be found by the same search (positive control).",
+         "Only records whose target is one of the repository's crates are judged; dependency records (e.g. russh DEBUG packet dumps, which do contain the password as a byte list) are counted in the evidence but are not text this code base emits. Absence of the searched encodings, not of every transformation."),
 }
 
 def hooks_commits():
